@@ -768,3 +768,10 @@ def run(ctx, R):
     from psa.rules import c12
     n8 = C.reuse_obligations(ctx, R, c12.r127, 'R11.8')
     R.count('R11.8', n8, 2)
+    # R11.9: what a provider read reports as its root is the top of its
+    # parent chain: the subtree-root rewrite and the move guards of C09
+    from psa.rules import c09
+    n9 = C.reuse_obligations(
+        ctx, R, c09._run_c09, 'R11.9',
+        select=lambda o: o.rule in ('R9.1', 'R9.2'))
+    R.count('R11.9', n9, 5)
